@@ -125,6 +125,9 @@ type HTTPCall struct {
 	Start int // world time at which the request was made
 }
 
+// Quiet reports whether no worker closure or captured go statement is pending.
+func (w *World) Quiet() bool { return w.internalQuiet() }
+
 // Remaining is the number of scripted requests not sent yet.
 func (c *Conn) Remaining() int { return len(c.Spec.Script) - c.next }
 
